@@ -5,7 +5,7 @@ from ..valgen import Gen, copy_value, type_exact_eq
 from ..condgen import CondGen
 from ..rulegen import RuleGen
 from . import schema_common as sc
-from ..pathterms import PathT, Prim
+from ..pathterms import PathT, Prim, ListT, MapT, cnd
 from ..ruleterms import RuleT
 from ..terms import Leaf, Null, Bin
 from .c05 import make_case as rule_case
@@ -77,6 +77,31 @@ def cross_cast(g, rg, doc):
     return rts
 
 
+def cast_select(g, rg, doc):
+    """A schema in which a later casting rule SELECTS through a value condition on a record that an earlier rule casts inside: what a
+    rule's path selects is decided on the document as given, not on the copy that holds earlier casts."""
+    if not isinstance(doc, dict):
+        return None
+    pairs = [("true", True, "bool"), ("false", False, "bool"), ("3", 3, "int"), ("0", 0, "int"), ("-7", -7, "int")]
+    recs = []
+    for _ in range(g.r.randint(2, 3)):
+        s1, v1, c1 = g.r.choice(pairs)
+        recs.append({"flag": s1, "n": g.r.choice(["3", "5", "x", "true"]), "other": g.scalar()})
+    doc["_recs"] = recs if g.r.random() < 0.6 else {f"r{i}": r for i, r in enumerate(recs)}
+    wild = ListT() if isinstance(doc["_recs"], list) else MapT()
+    s1, v1, c1 = g.r.choice([p for p in pairs if any(r["flag"] == p[0] for r in recs)])
+    r1 = RuleT(PathT([Prim("_recs"), wild, Prim("flag")]), Null() if g.r.random() < 0.5 else Leaf("ValueDataType", "equal_to", [type(v1)]), [c1])
+    want = v1 if g.r.random() < 0.6 else s1          # the cast value (never there in the document as given) or the string (there)
+    sel_cond = Leaf("Value", "items_contain", [], {"flag": want}) if g.r.random() < 0.7 else Leaf("Value", "keys_contain", ["flag"])
+    part = (ListT if isinstance(doc["_recs"], list) else MapT)(value=cnd(sel_cond))
+    r2 = RuleT(PathT([Prim("_recs"), part, Prim("n")]), Leaf("ValueDataType", "equal_to", [int]) if g.r.random() < 0.5 else Null(),
+               [g.r.choice(["int", "bool"])])
+    rts = [r1, r2]
+    if g.r.random() < 0.3:
+        rts.append(rg.rule(doc, cast_p=0.5))
+    return rts
+
+
 def run(tier, seed, model_ok, spec_ok, replay=None):
     g = Gen(seed)
     rg = RuleGen(CondGen(g))
@@ -91,6 +116,8 @@ def run(tier, seed, model_ok, spec_ok, replay=None):
             rts = [rg.rule(doc, cast_p=0.8, path_args_p=0.15) for _ in range(g.r.choice([1, 2, 3]))]
             if g.r.random() < 0.25:
                 rts = cross_cast(g, rg, doc) or rts
+            elif g.r.random() < 0.15:
+                rts = cast_select(g, rg, doc) or rts
             c = sc.make_case(rts, doc)
             if c and c.outcome[0] == "ok":
                 before = copy_value(doc)
